@@ -459,6 +459,43 @@ func c07Streams(c *core.Ctx) {
 				c.Shape("refusal-fopts", ln, raw)
 			}
 		}
+		// an out-of-range command anywhere in a list (first, middle, last) makes every serialising path fail:
+		// "reported, never silently dropped or truncated into a different sequence"
+		for pos := 0; pos < 3; pos++ {
+			for _, where := range []string{"FOpts", "FRMPayload"} {
+				bad := &lorawan.MACCommand{CID: lorawan.LinkADRReq, Payload: &lorawan.LinkADRReqPayload{DataRate: 16 + uint8(r.Intn(200))}}
+				ok1 := &lorawan.MACCommand{CID: lorawan.DevStatusReq}
+				ok2 := &lorawan.MACCommand{CID: lorawan.DutyCycleReq, Payload: &lorawan.DutyCycleReqPayload{MaxDCycle: uint8(r.Intn(16))}}
+				list := []lorawan.Payload{ok1, ok2}
+				list = append(list[:pos], append([]lorawan.Payload{bad}, list[pos:]...)...)
+				var phy lorawan.PHYPayload
+				if where == "FOpts" {
+					phy = frameOf(false, nil, -1, nil)
+					phy.MACPayload.(*lorawan.MACPayload).FHDR.FOpts = list
+				} else {
+					phy = frameOf(false, nil, 0, nil)
+					phy.MACPayload.(*lorawan.MACPayload).FRMPayload = list
+				}
+				k := lorawan.AES128Key{7}
+				paths := map[string]func() error{
+					"MarshalBinary":      func() error { _, e := phy.MarshalBinary(); return e },
+					"SetDownlinkDataMIC": func() error { return phy.SetDownlinkDataMIC(lorawan.LoRaWAN1_1, 0, k) },
+					"EncryptFOpts":       func() error { return phy.EncryptFOpts(k) },
+					"EncryptFRMPayload":  func() error { return phy.EncryptFRMPayload(k) },
+				}
+				for _, name := range []string{"MarshalBinary", "SetDownlinkDataMIC", "EncryptFOpts", "EncryptFRMPayload"} {
+					if (name == "EncryptFOpts") != (where == "FOpts") && name != "MarshalBinary" && name != "SetDownlinkDataMIC" {
+						continue
+					}
+					var e error
+					c.Eval(1)
+					if p, _ := core.Guard(func() { e = paths[name]() }); !p && e == nil {
+						c.Violate(fmt.Sprintf("C07|invalid-command-in-list|accepted|%s|%s|pos=%d", where, name, pos), "%s holding [.. LinkADRReq{DataRate %d} ..] at position %d of 3: %s reports success", where, bad.Payload.(*lorawan.LinkADRReqPayload).DataRate, pos, name)
+					}
+				}
+				c.Shape("invalid-in-list", where, pos)
+			}
+		}
 		for _, port := range []int{-1, 1, 2, 100, 224, 255} {
 			cmds, _ := genMACStream(r, true, 6, true)
 			phy := frameOf(true, nil, port, nil)
